@@ -52,7 +52,7 @@ type CtlStep struct {
 // StackCfg is one assembly with its workload (complete: replayable as is).
 type StackCfg struct {
 	ID      int    `json:"id"`
-	Kind    string `json:"kind"` // ideal | dram | banked | wb | wt | l1l2 | vm
+	Kind    string `json:"kind"` // ideal | dram | banked | wb | wt | l1l2 | vm | rob | xlat
 	Leaf    string `json:"leaf"` // ideal | dram | banked (the memory at the bottom)
 	Policy  string `json:"policy,omitempty"`
 	Seed    int64  `json:"seed"`
@@ -491,6 +491,40 @@ func buildStack(cfg StackCfg) *stack {
 		s.connect("ConnTop", rq.out, top(first))
 		s.connect("ConnL1L2", bottom(first), top(l2))
 		s.connect("ConnBottom", bottom(l2), top(leaf))
+	case "xlat":
+		// an address translator straight under the requester, over a slow translation side (TLB with a one-entry MSHR,
+		// slow MMU with one walk in flight) and a plain memory; every port holds one message, requests come in bursts
+		// to many distinct pages: the Translation and Bottom ports are back-pressured while requests wait at the head of Top
+		leaf := s.buildLeaf("Mem")
+		pt := vm.MakePageTableBuilder().WithSimulation(s.reg).WithLog2PageSize(12).Build("PageTable")
+		npages := (uint64(c.Lines)*64-1)/4096 + 1
+		for i := uint64(0); i < npages; i++ {
+			pt.Insert(vm.Page{PID: 1, VAddr: i * 4096, PAddr: 0x100000/2 + i*4096, PageSize: 4096, Valid: true})
+		}
+		msp := mmu.DefaultSpec()
+		msp.Latency = 10 + c.MemLat
+		msp.MaxRequestsInFlight = 1
+		mm := mmu.MakeBuilder().WithRegistrar(s.reg).WithSpec(msp).WithResources(mmu.Resources{PageTable: pt}).Build("MMU")
+		s.assign(mm, "Top", "Control")
+		tsp := tlb.DefaultSpec()
+		tsp.NumSets, tsp.NumWays, tsp.MSHRSize, tsp.Latency, tsp.NumReqPerCycle = 1, 2, 1, c.TLBLat, 1
+		tl := tlb.MakeBuilder().WithRegistrar(s.reg).WithSpec(tsp).
+			WithResources(tlb.Resources{TranslationProviderMapper: &mem.SinglePortMapper{Port: top(mm).AsRemote()}}).Build("TLB")
+		s.assign(tl, "Top", "Bottom", "Control")
+		asp := addresstranslator.DefaultSpec()
+		asp.NumReqPerCycle = 4
+		at := addresstranslator.MakeBuilder().WithRegistrar(s.reg).WithSpec(asp).
+			WithResources(addresstranslator.Resources{
+				MemProviderMapper:         &mem.SinglePortMapper{Port: top(leaf).AsRemote()},
+				TranslationProviderMapper: &mem.SinglePortMapper{Port: top(tl).AsRemote()},
+			}).Build("AT")
+		s.assign(at, "Top", "Bottom", "Translation", "Control")
+		first = at
+		s.comps = []stackComp{at, tl, mm, leaf}
+		s.connect("ConnTop", rq.out, top(at))
+		s.connect("ConnXlat", at.GetPortByName("Translation"), top(tl))
+		s.connect("ConnTLB", bottom(tl), top(mm))
+		s.connect("ConnAT", bottom(at), top(leaf))
 	case "vm":
 		leaf := s.buildLeaf("Mem")
 		l2 := s.buildWB("L2", top(leaf).AsRemote())
@@ -592,7 +626,7 @@ func (s *stack) storageDigest() string {
 
 // ---------------------------------------------------------------- generation
 
-var stackKinds = []string{"ideal", "wb", "wt", "l1l2", "vm", "rob", "dram", "banked", "wb", "wt", "rob", "l1l2"}
+var stackKinds = []string{"ideal", "wb", "wt", "l1l2", "vm", "rob", "dram", "banked", "wb", "wt", "rob", "l1l2", "xlat"}
 
 // genStack draws assembly number i of a run; ctlMode: none | soft (no reset) | reset | mixed.
 func genStack(rng *rand.Rand, i, ops int, ctlMode string) StackCfg {
@@ -606,6 +640,10 @@ func genStack(rng *rand.Rand, i, ops int, ctlMode string) StackCfg {
 		c.Leaf = c.Kind
 	case "wb", "wt", "l1l2":
 		c.Leaf = pick(rng, "ideal", "ideal", "ideal", "banked", "dram")
+	case "xlat":
+		// one-message ports everywhere, bursts of requests to many distinct pages
+		c.PortBuf, c.Window, c.Lines = 1, pick(rng, 8, 12, 16), 64*pick(rng, 16, 32, 48)
+		c.MemLat, c.TLBLat = pick(rng, 3, 10, 40), pick(rng, 2, 4, 8)
 	case "rob":
 		// a reorder buffer over a cache over a slow memory: hits overtake misses, so the buffer holds
 		// answered-but-unretired transactions behind an outstanding miss
@@ -705,6 +743,8 @@ func stackNames(c StackCfg) []string {
 		return []string{"Cache", "Mem"}
 	case "rob":
 		return []string{"ROB", "Cache", "Mem"}
+	case "xlat":
+		return []string{"AT", "TLB", "MMU", "Mem"}
 	case "l1l2":
 		return []string{"L1", "L2", "Mem"}
 	case "vm":
